@@ -1382,6 +1382,36 @@ func (fx *fnCtx) declare(id *ast.Ident, tok token.Token, ty types.Type) error {
 
 // update builds `let root := { root with path := v }` for nested field / constant-index targets.
 func (fx *fnCtx) update(lhs, rhs ast.Expr) (string, error) {
+	if ie, ok := lhs.(*ast.IndexExpr); ok {
+		if _, isConst := fx.constInt(ie.Index); !isConst {
+			id, isId := ie.X.(*ast.Ident)
+			n, isArr := fx.arrayLen(fx.pi.info.Types[ie.X].Type)
+			if !isId || !isArr || n > 4 || n < 1 || !isInt(fx.pi.info.Types[ie.Index].Type) {
+				return "", fmt.Errorf("non-constant index in assignment")
+			}
+			ty, inScope := fx.scope[id.Name]
+			if !inScope {
+				return "", fmt.Errorf("assignment through unknown variable %s", id.Name)
+			}
+			if _, isPtr := types.Unalias(ty).(*types.Pointer); isPtr && !(id.Name == fx.recvName && fx.mutating) {
+				return "", fmt.Errorf("store through pointer %s is outside the subset", id.Name)
+			}
+			v, err := fx.exprAs(rhs, fx.pi.info.Types[lhs].Type)
+			if err != nil {
+				return "", err
+			}
+			ix, err := fx.exprAs(ie.Index, nil)
+			if err != nil {
+				return "", err
+			}
+			nm := ident(id.Name)
+			out := fmt.Sprintf("{ %s with e%d := _v }", nm, n-1)
+			for k := n - 2; k >= 0; k-- {
+				out = fmt.Sprintf("if _ix = %d then { %s with e%d := _v } else %s", k, nm, k, out)
+			}
+			return fmt.Sprintf("let %s := (let _v := %s; let _ix : Int := %s; %s)", nm, v, ix, out), nil
+		}
+	}
 	type step struct{ field string }
 	var path []string
 	e := lhs
@@ -1607,7 +1637,28 @@ func (fx *fnCtx) exprAs(e ast.Expr, want types.Type) (string, error) {
 	case *ast.IndexExpr:
 		i, ok := fx.constInt(x.Index)
 		if !ok {
-			return "", fmt.Errorf("non-constant index")
+			// variable index into a small fixed array: an if-chain over the positions (Go panics when the
+			// index is out of range; the chain then yields the last element - callers are in range)
+			n, isArr := fx.arrayLen(fx.pi.info.Types[x.X].Type)
+			if !isArr || n > 4 || n < 1 || !isInt(fx.pi.info.Types[x.Index].Type) {
+				return "", fmt.Errorf("non-constant index")
+			}
+			if _, err := fx.t.leanType(fx.pi.info.Types[x.X].Type); err != nil {
+				return "", err
+			}
+			a, err := fx.exprAs(x.X, nil)
+			if err != nil {
+				return "", err
+			}
+			ix, err := fx.exprAs(x.Index, nil)
+			if err != nil {
+				return "", err
+			}
+			out := fmt.Sprintf("_arr.e%d", n-1)
+			for k := n - 2; k >= 0; k-- {
+				out = fmt.Sprintf("if _ix = %d then _arr.e%d else %s", k, k, out)
+			}
+			return fmt.Sprintf("(let _arr := %s; let _ix : Int := %s; %s)", a, ix, out), nil
 		}
 		n, isArr := fx.arrayLen(fx.pi.info.Types[x.X].Type)
 		if !isArr {
